@@ -12,8 +12,14 @@
 `check_trace(ctx, tr, w)` (b) on a recorded run: per tagger the maximum number of simultaneously running handlers and the longest
                     fresh yield vs the pool (`ctx.count`), `ctx.fail("C09:pool-exhausted:<ini>:<tagger>", …)` if the demand
                     exceeds the pool or the run ended in `TagActivatorError`.
-Not covered here: the factor-map tagger on the real `FactorTypeMaps` object outside recorded runs (its counts are compared by
-C10's correspondence; (b) measures them on every traced run).
+                    (a2, E42) the REAL `FactorTypeMapInStateTagger` on a REAL `FactorTypeMaps` object built from the factor file of
+                    every shipped `.ini` (with the configuration's numbers of root nodes / nodes per root node) and from generated
+                    factor files (`harness/props/c10.py: gen_file`), on real `Node` branches: every one-chain state in leaf mode
+                    (one leaf active) and in root mode (all leaves of one composite object), and two-chain (adversarial) states:
+                    number of in-states yielded == the model's count (`translate_pools.factor_yield`, the Python reading of
+                    `FactorMaps.taggerYield`); over the one-chain states of the tagger's mode (`Sel`) the count is <= `demandBound`
+                    (= `demandMax`), the maximum IS `demandMax`, and a count above the shipped pool is
+                    `ctx.fail("C09:pool-exhausted:<ini>:<tagger>")`.
 """
 import os
 
@@ -173,9 +179,181 @@ def check(ctx):
             ctx.count(f"pool:shipped:pool{rel}bound")
             if t["pool"] < b:
                 ctx.count(f"pool<bound:{pd['ini']}:{t['tag']}:{t['pool']}<{b}")
+    try:
+        _check_factor(ctx, pds)
+    except Exception as e:  # noqa
+        ctx.disagree("pool.factor-check", {}, "evaluated", repr(e))
     ctx.rule = ("(a) occupancy states (grid x occupant limit x number of units x crowded/random, with/without active unit) handed to "
                 "the real cell taggers' yield methods: count == model count <= bound; non-trivial = a demand > 1 or a bound attained. "
+                "(a2) real FactorTypeMapInStateTagger on real FactorTypeMaps (shipped factor files with the shipped numbers of nodes, generated "
+                "files): leaf-mode / root-mode / two-chain active branches, count == model count, max over the one-chain states of "
+                "the tagger's mode == demandMax <= pool. "
                 "(b) per recorded run: max simultaneously running handlers and longest yield per tagger vs pool.")
+
+
+# ------------------------------------------------------------------------------------------------------------------
+# (a2) the factor tagger on a real `FactorTypeMaps`
+
+def _snake(camel):
+    out = ""
+    for ch in camel:
+        out += ("_" + ch.lower()) if ch.isupper() and out else ch.lower()
+    return out
+
+
+def _branches(Node, Unit, n_per, leaves):
+    """the extracted active global state (list of root cnodes) whose leaf nodes are `leaves` (identifier tuples)"""
+    by_root = {}
+    for lf in leaves:
+        by_root.setdefault(lf[0], []).append(lf)
+    out = []
+    for r in sorted(by_root):
+        b = Node(Unit((r,), [0.0]))
+        if n_per != 1:
+            for lf in by_root[r]:
+                b.add_child(Node(Unit(tuple(lf), [0.0])))
+        out.append(b)
+    return out
+
+
+def _factor_states(rng, n_roots, n_per, n_random):
+    """(mode, leaves): every one-chain state for small systems (a sample for large ones), plus two-chain states"""
+    roots = list(range(n_roots)) if n_roots <= 6 else sorted(set([0, 1, n_roots - 1] + rng.sample(range(n_roots), 3)))
+    for i in roots:
+        if n_per == 1:
+            yield "leaf", [(i,)]
+            continue
+        yield "root", [(i, j) for j in range(n_per)]
+        for j in range(n_per):
+            yield "leaf", [(i, j)]
+    for _ in range(n_random):                                  # adversarial: two independent active units / partial objects
+        if n_roots < 2:
+            break
+        a, b = rng.sample(range(n_roots), 2)
+        if n_per == 1:
+            yield "two", [(a,), (b,)]
+        else:
+            ja = sorted(rng.sample(range(n_per), rng.randint(1, n_per)))
+            jb = sorted(rng.sample(range(n_per), rng.randint(1, n_per)))
+            yield "two", [(a, j) for j in ja] + [(b, j) for j in jb]
+
+
+def _check_factor(ctx, pds):
+    import logging
+    import tempfile
+    import jellyfysh.setting as setting
+    from jellyfysh.setting import hypercuboid_setting
+    from jellyfysh.activator.tagger.factor_type_maps import FactorTypeMaps
+    from jellyfysh.activator.tagger.factor_type_map_in_state_tagger import FactorTypeMapInStateTagger
+    from jellyfysh.base.node import Node
+    from jellyfysh.base.unit import Unit
+    from harness.props import c10 as C10
+    logging.getLogger("jellyfysh.activator.tagger.factor_type_maps").setLevel(logging.ERROR)
+    rng = ctx.rng
+    fsdir = os.path.join(ctx.root, "jellyfysh", "config_files", "factor_set_files")
+
+    def set_up(n_roots, n_per, path):
+        setting.reset()
+        hypercuboid_setting.HypercuboidSetting(beta=1.0, dimension=1, system_lengths=[1.0])
+        setting.set_number_of_root_nodes(n_roots)
+        setting.set_number_of_nodes_per_root_node(n_per)
+        setting.set_number_of_node_levels(1 if n_per == 1 else 2)
+        FactorTypeMaps._instance = None
+        return FactorTypeMaps(path)
+
+    def one(ftm, lines, n_roots, n_per, ty, sel, pool, bound, case0, sig):
+        """drive one tagger over the states; returns the maximum over the one-chain states of its mode"""
+        try:
+            tg = FactorTypeMapInStateTagger([], [], object(), max(1, pool or 1), ftm, tag="t", factor_type_maps_label=_snake(ty))
+            tg.initialize()
+        except Exception as e:  # noqa
+            ctx.disagree("pool.factor-tagger:construct", case0, repr(e), "constructed")
+            return None
+        best = 0
+        for mode, leaves in _factor_states(rng, n_roots, n_per, 4):
+            case = dict(case0, mode=mode, active_leaves=[list(x) for x in leaves])
+            try:
+                got = len(list(tg.yield_identifiers_send_event_time(_branches(Node, Unit, n_per, leaves))))
+            except Exception as e:  # noqa
+                got = "err:" + type(e).__name__
+            y = TP.factor_yield(lines, n_roots, n_per, ty, leaves)
+            want = "err:KeyError" if y is None else len(y)
+            ctx.evaluations += 1
+            if not isinstance(got, int) and got != want and pool is None:
+                # a GENERATED file on which the real map raises something this Python mirror does not model (it models the `KeyError`
+                # of a local map only): an explicit error outcome, judged by C10's correspondence against the full Lean model of
+                # `FactorTypeMaps` — counted here, never a disagreement by itself
+                ctx.count("pool:factor:generated:tagger-raised:" + str(got))
+                continue
+            if got != want:
+                ctx.disagree("pool.demand:factorTypeMap", case, got, want)
+            ctx.count(f"pool:factor:{mode}:demand" + ("=err" if not isinstance(got, int) else "=0" if got == 0 else "=1" if got == 1 else ">1"))
+            in_mode = (mode == "leaf" and sel != 1) or (mode == "root" and sel != 0)
+            if in_mode and isinstance(got, int):
+                best = max(best, got)
+                if bound is not None and got > bound:
+                    ctx.disagree("pool.bound:factorTypeMap", case, got, bound)
+                if pool is not None and got > pool:
+                    ctx.fail(sig, dict(case, pool=pool, demand=got),
+                             f"the factor tagger yields {got} in-states on a one-chain state of its mode but owns {pool} event handlers")
+        return best
+
+    # the shipped configurations: their factor file, their numbers of nodes, their pools
+    for pd in pds:
+        if not pd["factor_file"]:
+            continue
+        path = os.path.join(fsdir, pd["factor_file"])
+        n_roots, n_per = pd["n_roots"], pd["n_per"]
+        try:
+            ftm = set_up(n_roots, n_per, path)
+        except Exception as e:  # noqa
+            ctx.disagree("pool.factor-file", {"ini": pd["ini"], "file": pd["factor_file"]}, repr(e), "accepted")
+            continue
+        for T, t in enumerate(pd["wiring"]["taggers"]):
+            if t["lean_cls"] != "factorTypeMap":
+                continue
+            ty, sel = pd["ftypes"][T], pd["sels"][T]
+            bound, _ = TP.demand_bound(pd, T)
+            case0 = {"ini": pd["ini"], "tagger": t["tag"], "type": ty, "sel": sel, "n_roots": n_roots, "n_per": n_per}
+            best = one(ftm, pd["lines"], n_roots, n_per, ty, sel, t["pool"], bound, case0,
+                       f"C09:pool-exhausted:{pd['ini']}:{t['tag']}")
+            if best is None:
+                continue
+            full = n_roots <= 6
+            if full and best != bound:
+                ctx.disagree("pool.demandMax:factorTypeMap", case0, best, bound)
+            ctx.cls(f"pool:factor:shipped:{'leaf' if sel == 0 else 'root' if sel == 1 else 'both'}:"
+                    f"{'max=pool' if best == t['pool'] else 'max<pool' if best < t['pool'] else 'max>pool'}")
+            ctx.count(f"pool:factor:shipped:{os.path.basename(pd['ini'])}:{t['tag']}:max={best}:bound={bound}:pool={t['pool']}")
+    # generated factor files
+    tmpdir = tempfile.mkdtemp(prefix="poolcorr_")
+    try:
+        for k in range(ctx.n(40, 300)):
+            n_per = rng.choice([2, 2, 3, 3, 4])         # point masses (n_per = 1): the shipped coulomb_atoms files above
+            n_roots = rng.choice([1, 2, 3, 4])
+            lines, kinds = C10.gen_file(rng, n_per)
+            path = os.path.join(tmpdir, f"g{k}.txt")
+            with open(path, "w") as f:
+                f.write(C10.factor_text(lines, False))
+            try:
+                ftm = set_up(n_roots, n_per, path)
+            except Exception as e:  # noqa
+                ctx.count("pool:factor:generated-file-rejected:" + type(e).__name__)
+                continue
+            types = sorted({ty for _, ty in lines})
+            for ty in types + ["Absent"]:
+                sel = rng.choice([0, 1, 2])
+                bound = (n_roots - 1) if n_per == 1 else TP.factor_demand_max(lines, n_roots, n_per, ty, sel)[0]
+                case0 = {"file": C10.factor_text(lines, False), "type": ty, "sel": sel, "n_roots": n_roots, "n_per": n_per}
+                best = one(ftm, lines, n_roots, n_per, ty, sel, None, bound, case0, "")
+                if best is not None and best != bound and n_per != 1:
+                    ctx.disagree("pool.demandMax:factorTypeMap", case0, best, bound)
+                ctx.cls(f"pool:factor:generated:nper{n_per}:{'fallback' if ty == 'Absent' else 'file'}:sel{sel}")
+    finally:
+        import shutil
+        shutil.rmtree(tmpdir, ignore_errors=True)
+        setting.reset()
+        FactorTypeMaps._instance = None
 
 
 # ------------------------------------------------------------------------------------------------------------------
